@@ -14,18 +14,33 @@ From Coq Require Import ZifyBool ZifyN ZifyNat.
 From FF Require Import Lib.Word Gen.Consts_device_acpi_aml Gen.Consts_aml_tree Aml.Stream Aml.Lex Aml.LexProofs
   Aml.Tree Aml.TreeSpec Aml.Parser Aml.Grammar Aml.LexRoundtrip
   Aml.ParserFragBase Aml.ParserFragFirst Aml.ParserFragF0 Aml.ParserFragF0Conn Aml.ParserFragF0Top
-  Aml.ParserFragRose Aml.ParserFragF1 Aml.ParserFragF1First Aml.ParserFragF1Conn Aml.ParserFragF1Top
+  Aml.ParserFragRose Aml.ParserFragDev Aml.ParserFragArgs Aml.ParserFragF1 Aml.ParserFragF1First Aml.ParserFragF1Conn Aml.ParserFragF1Top
   Aml.View Aml.ParserFragView Aml.ParserFragF0View Aml.ParserFragF0Final Aml.ParserFragSort Aml.ParserFragF1View Aml.WfProgram.
 Import ListNotations.
 Local Open Scope N_scope.
 
 Ltac Zify.zify_post_hook ::= Z.div_mod_to_equations.
 
+Definition blk_ast (bk : bkind) (k : N) (nm : namestr) (fa : list N) (b : list ast) : ast :=
+  match bk with
+  | BDev => ADevice k nm b
+  | BTZ => AThermal k nm b
+  | BProc => AProcessor k nm (nth 0 fa 0) (nth 1 fa 0) (nth 2 fa 0) b
+  | BPwr => APowerRes k nm (nth 0 fa 0) (nth 1 fa 0) b
+  | BMeth => AMethod k nm (nth 0 fa 0) b
+  end.
+
 Fixpoint item_ast (it : item) : ast :=
   match it with
   | IName d => decl_ast d
-  | IDev k seg body => ADevice k (seg_name seg) (map item_ast body)
-  | IMeth k seg fl body => AMethod k (seg_name seg) fl (map item_ast body)
+  | IBlk bk k seg fa body => blk_ast bk k (seg_name seg) fa (map item_ast body)
+  end.
+
+(** the right number of fixed arguments everywhere *)
+Fixpoint shape_ok (it : item) : bool :=
+  match it with
+  | IName _ => true
+  | IBlk bk _ _ fa body => Nat.eqb (length fa) (length (bk_ws bk)) && forallb shape_ok body
   end.
 
 Definition simple_name (nm : namestr) : option N :=
@@ -80,7 +95,10 @@ Definition in_fragment_F2 (tables : list (list ast)) : bool :=
 
 (** no Method anywhere *)
 Fixpoint no_meth (it : item) : bool :=
-  match it with IName _ => true | IDev _ _ body => forallb no_meth body | IMeth _ _ _ _ => false end.
+  match it with
+  | IName _ => true
+  | IBlk bk _ _ _ body => match bk with BMeth => false | _ => forallb no_meth body end
+  end.
 
 Definition in_fragment_F1 (tables : list (list ast)) : bool :=
   match tables with
@@ -98,62 +116,80 @@ Proof.
   intros E; inversion E. reflexivity.
 Qed.
 
-Lemma f2_item_ast : forall a it, f2_item a = Some it -> a = item_ast it.
+Lemma f2_item_ast : forall a it, f2_item a = Some it -> a = item_ast it /\ shape_ok it = true.
 Proof.
   fix IH 1. intros a it. destruct a as [ | | | | | | | | | | | | | k nm body | | | | k nm fl body | nm v | | | | | | ]; try discriminate.
   - cbn [f2_item]. destruct (simple_name nm) as [seg|] eqn:En; [|discriminate]. apply simple_name_eq in En. subst nm.
     match goal with |- match ?go body with _ => _ end = _ -> _ => set (GO := go) end.
-    assert (HL : forall l b, GO l = Some b -> l = map item_ast b).
+    assert (HL : forall l b, GO l = Some b -> l = map item_ast b /\ forallb shape_ok b = true).
     { induction l as [|x t IHt]; intros b Hb; cbn in Hb.
-      - inversion Hb. reflexivity.
+      - inversion Hb. split; reflexivity.
       - destruct (f2_item x) as [i|] eqn:Ei; [|discriminate]. destruct (GO t) as [r|] eqn:Er; [|discriminate].
-        inversion Hb; subst b. cbn [map]. rewrite (IH x i Ei), (IHt r eq_refl). reflexivity. }
-    destruct (GO body) as [b|] eqn:Eb; [|discriminate]. intros E; inversion E; subst it. cbn [item_ast]. rewrite (HL body b Eb). reflexivity.
+        inversion Hb; subst b. cbn [map forallb]. destruct (IH x i Ei) as (-> & Hi). destruct (IHt r eq_refl) as (-> & Hr).
+        rewrite Hi, Hr. split; reflexivity. }
+    destruct (GO body) as [b|] eqn:Eb; [|discriminate]. intros E; inversion E; subst it. destruct (HL body b Eb) as (-> & Hb).
+    split; [reflexivity|]. cbn [IDev shape_ok bk_ws length Nat.eqb andb]. exact Hb.
   - cbn [f2_item]. destruct (simple_name nm) as [seg|] eqn:En; [|discriminate]. apply simple_name_eq in En. subst nm.
     match goal with |- match ?go body with _ => _ end = _ -> _ => set (GO := go) end.
-    assert (HL : forall l b, GO l = Some b -> l = map item_ast b).
+    assert (HL : forall l b, GO l = Some b -> l = map item_ast b /\ forallb shape_ok b = true).
     { induction l as [|x t IHt]; intros b Hb; cbn in Hb.
-      - inversion Hb. reflexivity.
+      - inversion Hb. split; reflexivity.
       - destruct (f2_item x) as [i|] eqn:Ei; [|discriminate]. destruct (GO t) as [r|] eqn:Er; [|discriminate].
-        inversion Hb; subst b. cbn [map]. rewrite (IH x i Ei), (IHt r eq_refl). reflexivity. }
-    destruct (GO body) as [b|] eqn:Eb; [|discriminate]. intros E; inversion E; subst it. cbn [item_ast]. rewrite (HL body b Eb). reflexivity.
+        inversion Hb; subst b. cbn [map forallb]. destruct (IH x i Ei) as (-> & Hi). destruct (IHt r eq_refl) as (-> & Hr).
+        rewrite Hi, Hr. split; reflexivity. }
+    destruct (GO body) as [b|] eqn:Eb; [|discriminate]. intros E; inversion E; subst it. destruct (HL body b Eb) as (-> & Hb).
+    split; [reflexivity|]. cbn [IMeth shape_ok bk_ws length Nat.eqb andb]. exact Hb.
   - cbn [f2_item]. destruct v; try discriminate. destruct (simple_name nm) as [seg|] eqn:En; [|discriminate]. apply simple_name_eq in En. subst nm.
-    intros E; inversion E. reflexivity.
+    intros E; inversion E. split; reflexivity.
 Qed.
 
-Lemma f2_items_ast : forall p its, f2_items p = Some its -> p = map item_ast its.
+Lemma f2_items_ast : forall p its, f2_items p = Some its -> p = map item_ast its /\ forallb shape_ok its = true.
 Proof.
   induction p as [|x t IH]; intros its Hp; cbn [f2_items] in Hp.
-  - inversion Hp. reflexivity.
+  - inversion Hp. split; reflexivity.
   - destruct (f2_item x) as [i|] eqn:Ei; [|discriminate]. destruct (f2_items t) as [r|] eqn:Er; [|discriminate].
-    inversion Hp; subst its. cbn [map]. rewrite (f2_item_ast x i Ei), (IH r eq_refl). reflexivity.
+    inversion Hp; subst its. cbn [map forallb]. destruct (f2_item_ast x i Ei) as (-> & Hi). destruct (IH r eq_refl) as (-> & Hr).
+    rewrite Hi, Hr. split; reflexivity.
 Qed.
 
 (** ---- encoding ---- *)
-Lemma encode_item : forall it, encode (item_ast it) = enc_item it.
+Lemma encode_item : forall it, shape_ok it = true -> encode (item_ast it) = enc_item it.
 Proof.
-  fix IH 1. intros [d|k seg body|k seg fl body].
+  fix IH 1. intros [d|bk k seg fa body] Hs.
   - apply encode_decl.
-  - cbn [item_ast encode]. unfold enc_pkg. rewrite enc_seg_name, enc_dev.
+  - cbn [shape_ok] in Hs. apply andb_prop in Hs. destruct Hs as [Hl Hb]. apply Nat.eqb_eq in Hl.
     assert (HL : flat_map encode (map item_ast body) = enc_items body).
-    { induction body as [|x t IHt]; [reflexivity|]. cbn [map flat_map]. rewrite IH, IHt. reflexivity. }
-    rewrite HL. reflexivity.
-  - cbn [item_ast encode]. unfold enc_pkg. rewrite enc_seg_name, enc_meth.
-    assert (HL : flat_map encode (map item_ast body) = enc_items body).
-    { induction body as [|x t IHt]; [reflexivity|]. cbn [map flat_map]. rewrite IH, IHt. reflexivity. }
-    rewrite HL. reflexivity.
+    { clear Hl. induction body as [|x t IHt]; [reflexivity|]. cbn [forallb] in Hb. apply andb_prop in Hb. destruct Hb as [Hx Ht].
+      cbn [map flat_map]. rewrite (IH x Hx), (IHt Ht). reflexivity. }
+    rewrite enc_blk. cbn [item_ast].
+    destruct bk; cbn [bk_ws length] in Hl; (destruct fa as [|a0 [|a1 [|a2 [|a3 fa]]]]; try discriminate Hl);
+      cbn [blk_ast encode nth]; unfold enc_pkg; rewrite enc_seg_name, HL; cbn [bfx bk_ws combine enc_fx fw_enc bk_op app];
+      rewrite <- ?app_assoc; reflexivity.
 Qed.
 
-Lemma encode_items its : encode_table (map item_ast its) = enc_items its.
-Proof. unfold encode_table, enc_items. induction its as [|x t IH]; [reflexivity|]. cbn [map flat_map]. rewrite encode_item, IH. reflexivity. Qed.
+Lemma encode_items its : forallb shape_ok its = true -> encode_table (map item_ast its) = enc_items its.
+Proof.
+  unfold encode_table, enc_items. induction its as [|x t IH]; intros Hs; [reflexivity|]. cbn [forallb] in Hs. apply andb_prop in Hs. destruct Hs as [Hx Ht].
+  cbn [map flat_map]. rewrite (encode_item x Hx), (IH Ht). reflexivity.
+Qed.
 
 (** ---- well-formedness ---- *)
 Lemma sumlen_eq : forall l, (fix sumlen (l : list ast) : N := match l with [] => 0 | x :: r => lenN (encode x) + sumlen r end) l = lenN (flat_map encode l).
 Proof. induction l as [|x t IH]; [reflexivity|]. cbn [flat_map]. rewrite lenN_app, IH. reflexivity. Qed.
 
-Lemma wf_item e ms : forall it scope, wf_ast e ms scope (item_ast it) = true -> item_okb it = true.
+Lemma pkglen_of_k k A B : k_ok k A = true -> B = A -> pkglen_okb k (k + B) = true.
+Proof. intros Hk ->. exact Hk. Qed.
+
+Lemma seg_ok_parts seg : name_ok (seg_name seg) = true -> lead_okb (seg_lead seg) = true /\ (seg <? 0x100000000) = true.
 Proof.
-  fix IH 1. intros [d|k seg body|k seg fl body] scope Hw.
+  intros Hn. unfold name_ok in Hn. cbn [seg_name n_segs forallb] in Hn. apply andb_prop in Hn. destruct Hn as [_ Hn].
+  apply andb_prop in Hn. destruct Hn as [Hseg _].
+  unfold seg_ok, seg_bytes in Hseg. repeat (apply andb_prop in Hseg; destruct Hseg as [Hseg ?]). split; assumption.
+Qed.
+
+Lemma wf_item e ms : forall it scope, shape_ok it = true -> wf_ast e ms scope (item_ast it) = true -> item_okb it = true.
+Proof.
+  fix IH 1. intros [d|bk k seg fa body] scope Hs Hw.
   - cbn [item_ast item_okb]. unfold decl_ast in Hw. cbn [wf_ast] in Hw.
     apply andb_prop in Hw. destruct Hw as [Hw _]. apply andb_prop in Hw. destruct Hw as [Hw Hc].
     apply andb_prop in Hw. destruct Hw as [Hn _].
@@ -163,81 +199,71 @@ Proof.
     apply andb_prop in Hc. destruct Hc as [Hc Hv].
     apply andb_true_intro. split; [|assumption].
     unfold decl_okb. apply andb_true_intro. split; [apply andb_true_intro; split|]; [assumption|exact Hc|rewrite N.shiftl_1_l in Hv; exact Hv].
-  - cbn [item_ast wf_ast] in Hw. cbn [item_okb].
-    apply andb_prop in Hw. destruct Hw as [Hw Hall]. apply andb_prop in Hw. destruct Hw as [Hn Hk].
-    unfold name_ok in Hn. cbn [seg_name n_segs forallb] in Hn. apply andb_prop in Hn. destruct Hn as [_ Hn].
-    apply andb_prop in Hn. destruct Hn as [Hseg _].
-    unfold seg_ok, seg_bytes in Hseg. repeat (apply andb_prop in Hseg; destruct Hseg as [Hseg ?]).
-    rewrite sumlen_eq in Hk. rewrite enc_seg_name in Hk.
+  - cbn [shape_ok] in Hs. apply andb_prop in Hs. destruct Hs as [Hl Hb]. pose proof Hl as Hl'. apply Nat.eqb_eq in Hl.
     assert (HL : flat_map encode (map item_ast body) = enc_items body).
-    { clear. induction body as [|x t IHt]; [reflexivity|]. cbn [map flat_map]. rewrite encode_item, IHt. reflexivity. }
-    rewrite HL in Hk.
-    unfold decl_path, start_scope in Hall. cbn [seg_name n_root n_carets n_segs] in Hall.
-    destruct (lenN scope <? 0) eqn:E0; [apply N.ltb_lt in E0; lia|].
-    apply andb_true_intro. split; [apply andb_true_intro; split; [apply andb_true_intro; split|]|].
-    + assumption.
-    + assumption.
-    + unfold k_ok in Hk. unfold pkglen_okb. rewrite lenN_app. exact Hk.
-    + match type of Hall with ?all _ _ = true => set (ALL := all) in Hall end.
-      generalize dependent (firstn (length scope - N.to_nat 0) scope ++ [seg]). intros sc Hall. clear Hk HL.
-      induction body as [|x t IHt]; [reflexivity|]. cbn [map] in Hall. cbn in Hall. apply andb_prop in Hall. destruct Hall as [Hx Ht].
-      cbn [forallb]. rewrite (IH x sc Hx). apply IHt. exact Ht.
-  - cbn [item_ast wf_ast] in Hw. cbn [item_okb].
-    apply andb_prop in Hw. destruct Hw as [Hw Hall]. apply andb_prop in Hw. destruct Hw as [Hw Hk]. apply andb_prop in Hw. destruct Hw as [Hn Hfl].
-    unfold name_ok in Hn. cbn [seg_name n_segs forallb] in Hn. apply andb_prop in Hn. destruct Hn as [_ Hn].
-    apply andb_prop in Hn. destruct Hn as [Hseg _].
-    unfold seg_ok, seg_bytes in Hseg. repeat (apply andb_prop in Hseg; destruct Hseg as [Hseg ?]).
-    rewrite sumlen_eq in Hk. rewrite enc_seg_name in Hk.
-    assert (HL : flat_map encode (map item_ast body) = enc_items body).
-    { clear. induction body as [|x t IHt]; [reflexivity|]. cbn [map flat_map]. rewrite encode_item, IHt. reflexivity. }
-    rewrite HL in Hk.
-    unfold decl_path, start_scope in Hall. cbn [seg_name n_root n_carets n_segs] in Hall.
-    destruct (lenN scope <? 0) eqn:E0; [apply N.ltb_lt in E0; lia|].
-    apply andb_true_intro. split; [apply andb_true_intro; split; [apply andb_true_intro; split; [apply andb_true_intro; split|]|]|].
-    + assumption.
-    + assumption.
-    + exact Hfl.
-    + unfold k_ok in Hk. unfold pkglen_okb.
-      replace (k + lenN (seg_bytes seg ++ [fl] ++ flat_map enc_item body)) with (k + (lenN (seg_bytes seg) + 1 + lenN (enc_items body))); [exact Hk|].
-      rewrite !lenN_app. change (lenN [fl]) with 1. unfold enc_items. lia.
-    + match type of Hall with ?all _ _ = true => set (ALL := all) in Hall end.
-      generalize dependent (firstn (length scope - N.to_nat 0) scope ++ [seg]). intros sc Hall. clear Hk HL.
-      induction body as [|x t IHt]; [reflexivity|]. cbn [map] in Hall. cbn in Hall. apply andb_prop in Hall. destruct Hall as [Hx Ht].
-      cbn [forallb]. rewrite (IH x sc Hx). apply IHt. exact Ht.
+    { clear -Hb. induction body as [|x t IHt]; [reflexivity|]. cbn [forallb] in Hb. apply andb_prop in Hb. destruct Hb as [Hx Ht].
+      cbn [map flat_map]. rewrite (encode_item x Hx), (IHt Ht). reflexivity. }
+    assert (HB : forall sc, (fix all (l : list ast) (sc : path) : bool := match l with [] => true | x :: r => wf_ast e ms sc x && all r sc end) (map item_ast body) sc = true ->
+                 forallb item_okb body = true).
+    { clear -IH Hb. intros sc. induction body as [|x t IHt]; intros Hall; [reflexivity|]. cbn [forallb] in Hb. apply andb_prop in Hb. destruct Hb as [Hx Ht].
+      cbn [map] in Hall. apply andb_prop in Hall. destruct Hall as [Hwx Hwt]. cbn [forallb]. rewrite (IH x sc Hx Hwx). apply IHt; assumption. }
+    cbn [item_okb]. rewrite Hl'. cbn [item_ast] in Hw.
+    assert (Hdp : decl_path scope (seg_name seg) = Some (scope ++ [seg])).
+    { unfold decl_path, start_scope. cbn [seg_name n_root n_carets n_segs]. destruct (lenN scope <? 0) eqn:E0; [apply N.ltb_lt in E0; lia|].
+      change (N.to_nat 0) with 0%nat. rewrite Nat.sub_0_r, firstn_all. reflexivity. }
+    destruct bk; cbn [bk_ws length] in Hl; (destruct fa as [|a0 [|a1 [|a2 [|a3 fa]]]]; try discriminate Hl);
+      cbn [blk_ast wf_ast nth] in Hw; rewrite Hdp, sumlen_eq, HL, enc_seg_name in Hw;
+      remember (name_ok (seg_name seg)) as NOK eqn:ENOK;
+      repeat (apply andb_prop in Hw; destruct Hw as [Hw ?]); subst NOK;
+      destruct (seg_ok_parts seg Hw) as (Hlead & Hseg);
+      rewrite Hlead, Hseg; cbn [andb bfx bk_ws combine fx_okb forallb enc_fx fw_enc app];
+      repeat (apply andb_true_intro; split); try assumption; try (eapply HB; eassumption);
+      try (eapply pkglen_of_k; [eassumption|]; unfold enc_items, lenN; repeat (rewrite ?app_length, ?len_le_bytes; cbn [length]); lia).
 Qed.
 
-Lemma wf_items e ms its : forallb (wf_ast e ms []) (map item_ast its) = true -> forallb item_okb its = true.
+Lemma wf_items e ms its : forallb shape_ok its = true -> forallb (wf_ast e ms []) (map item_ast its) = true -> forallb item_okb its = true.
 Proof.
-  induction its as [|x t IH]; intros Hw; [reflexivity|]. cbn [map forallb] in Hw |- *. apply andb_prop in Hw. destruct Hw as [Hx Ht].
-  rewrite (wf_item e ms x [] Hx), (IH Ht). reflexivity.
+  induction its as [|x t IH]; intros Hs Hw; [reflexivity|]. cbn [map forallb] in Hs, Hw |- *. apply andb_prop in Hw. destruct Hw as [Hx Ht].
+  apply andb_prop in Hs. destruct Hs as [Hsx Hst].
+  rewrite (wf_item e ms x [] Hsx Hx), (IH Hst Ht). reflexivity.
 Qed.
 
 (** ---- the specification side ---- *)
 Lemma item_is_decl it : is_decl (item_ast it) = true.
-Proof. destruct it; reflexivity. Qed.
+Proof. destruct it as [d|bk k seg fa body]; [reflexivity|destruct bk; reflexivity]. Qed.
 
-Lemma entries_item e : forall it scope, entries e scope (item_ast it) = sentry scope it.
+Lemma entries_item e : forall it scope, shape_ok it = true -> entries e scope (item_ast it) = sentry scope it.
 Proof.
-  fix IH 1. intros [d|k seg body|k seg fl body] scope.
+  fix IH 1. intros [d|bk k seg fa body] scope Hs.
   - cbn [item_ast sentry]. unfold decl_ast, name_entry. cbn [entries]. unfold decl_path, start_scope. cbn [n_root n_carets n_segs].
     destruct (lenN scope <? 0) eqn:E0; [apply N.ltb_lt in E0; lia|]. change (N.to_nat 0) with 0%nat. rewrite Nat.sub_0_r, firstn_all.
     cbn [r_expr]. unfold const_tokens, const_val, tok_const. destruct (const_bytes (d_op d)); reflexivity.
-  - cbn [item_ast sentry entries]. unfold decl_path, start_scope. cbn [seg_name n_root n_carets n_segs].
-    destruct (lenN scope <? 0) eqn:E0; [apply N.ltb_lt in E0; lia|]. change (N.to_nat 0) with 0%nat. rewrite Nat.sub_0_r, firstn_all.
-    unfold dev_entry. cbn [app]. f_equal.
-    generalize (scope ++ [seg]). intros sc. induction body as [|x t IHt]; [reflexivity|]. cbn [map flat_map]. rewrite IH, IHt. reflexivity.
-  - cbn [item_ast sentry entries]. unfold decl_path, start_scope. cbn [seg_name n_root n_carets n_segs].
-    destruct (lenN scope <? 0) eqn:E0; [apply N.ltb_lt in E0; lia|]. change (N.to_nat 0) with 0%nat. rewrite Nat.sub_0_r, firstn_all.
-    unfold meth_entry. cbn [app]. f_equal.
-    + f_equal. f_equal. f_equal. f_equal. f_equal. f_equal.
-      generalize (scope ++ [seg]). intros sc. unfold r_seq. induction body as [|x t IHt]; [reflexivity|]. cbn [map flat_map].
-      rewrite item_is_decl. cbn [orb app]. exact IHt.
-    + generalize (scope ++ [seg]). intros sc. induction body as [|x t IHt]; [reflexivity|]. cbn [map flat_map].
-      rewrite item_is_decl. cbn [orb]. rewrite IH, IHt. reflexivity.
+  - cbn [shape_ok] in Hs. apply andb_prop in Hs. destruct Hs as [Hl Hb]. apply Nat.eqb_eq in Hl.
+    assert (Hdp : decl_path scope (seg_name seg) = Some (scope ++ [seg])).
+    { unfold decl_path, start_scope. cbn [seg_name n_root n_carets n_segs]. destruct (lenN scope <? 0) eqn:E0; [apply N.ltb_lt in E0; lia|].
+      change (N.to_nat 0) with 0%nat. rewrite Nat.sub_0_r, firstn_all. reflexivity. }
+    assert (HBody : forall sc, (fix body (l : list ast) (sc : path) : list (list N) := match l with [] => [] | x :: r => entries e sc x ++ body r sc end) (map item_ast body) sc =
+                               flat_map (sentry sc) body).
+    { clear -IH Hb. intros sc. induction body as [|x t IHt]; [reflexivity|]. cbn [forallb] in Hb. apply andb_prop in Hb. destruct Hb as [Hx Ht].
+      cbn [map flat_map]. rewrite (IH x sc Hx), (IHt Ht). reflexivity. }
+    assert (HDecls : forall sc, (fix decls (l : list ast) (sc : path) : list (list N) :=
+                       match l with [] => [] | x :: r => (if is_decl x || is_fieldcontainer x then entries e sc x else []) ++ decls r sc end) (map item_ast body) sc =
+                               flat_map (sentry sc) body).
+    { clear -IH Hb. intros sc. induction body as [|x t IHt]; [reflexivity|]. cbn [forallb] in Hb. apply andb_prop in Hb. destruct Hb as [Hx Ht].
+      cbn [map flat_map]. rewrite item_is_decl. cbn [orb]. rewrite (IH x sc Hx), (IHt Ht). reflexivity. }
+    assert (HSeq : forall sc, r_seq e sc (map item_ast body) = []).
+    { clear. intros sc. unfold r_seq. induction body as [|x t IHt]; [reflexivity|]. cbn [map flat_map]. rewrite item_is_decl. cbn [orb app]. exact IHt. }
+    cbn [item_ast sentry].
+    destruct bk; cbn [bk_ws length] in Hl; (destruct fa as [|a0 [|a1 [|a2 [|a3 fa]]]]; try discriminate Hl);
+      cbn [blk_ast entries nth]; rewrite Hdp; rewrite ?HBody, ?HDecls, ?HSeq; unfold blk_entry; cbn [bfx bk_ws combine flat_map fw_op bk_op app];
+      rewrite ?app_nil_r; reflexivity.
 Qed.
 
-Lemma entries_items e its : flat_map (entries e []) (map item_ast its) = sentries [] its.
-Proof. unfold sentries. induction its as [|x t IH]; [reflexivity|]. cbn [map flat_map]. rewrite entries_item, IH. reflexivity. Qed.
+Lemma entries_items e its : forallb shape_ok its = true -> flat_map (entries e []) (map item_ast its) = sentries [] its.
+Proof.
+  unfold sentries. induction its as [|x t IH]; intros Hs; [reflexivity|]. cbn [forallb] in Hs. apply andb_prop in Hs. destruct Hs as [Hx Ht].
+  cbn [map flat_map]. rewrite (entries_item e x [] Hx), (IH Ht). reflexivity.
+Qed.
 
 Lemma root_len g pl its : Desc g pl (root_tree its) -> (6 + iszs its <= length pl)%nat.
 Proof.
@@ -253,16 +279,16 @@ Proof.
   intros tables Hwf Hfr. unfold in_fragment_F2 in Hfr.
   destruct tables as [|p [|p2 rest]]; try discriminate.
   destruct (f2_items p) as [its|] eqn:Eits; [|discriminate]. apply N.ltb_lt in Hfr.
-  pose proof (f2_items_ast p its Eits) as ->.
+  destruct (f2_items_ast p its Eits) as (-> & Hshape).
   unfold wf_program in Hwf. cbn [wf_tables app] in Hwf. apply andb_prop in Hwf. destruct Hwf as [Hwf _].
-  pose proof (wf_items _ _ its Hwf) as Hok.
-  rewrite encode_items in Hfr.
+  pose proof (wf_items _ _ its Hshape Hwf) as Hok.
+  rewrite (encode_items its Hshape) in Hfr.
   unfold parse_encode_statement, parse_program, load. cbn [map].
-  destruct default_rep as (t0 & Et0 & H0). rewrite Et0. cbn [load_tables]. rewrite encode_items.
+  destruct default_rep as (t0 & Et0 & H0). rewrite Et0. cbn [load_tables]. rewrite (encode_items its Hshape).
   destruct (parse_f1 its t0 Hok Hfr H0) as (s' & gF & plF & Eparse & HF & DF & Etb).
   rewrite Eparse. cbn [load_tables app]. change (0 =? 0) with true. cbv iota.
   rewrite (view_f1 (p_tree s') gF plF HF _ its DF Hok (root_len _ _ _ DF)).
-  unfold ns. cbn [flat_map]. rewrite app_nil_r, entries_items.
+  unfold ns. cbn [flat_map]. rewrite app_nil_r, (entries_items _ its Hshape).
   f_equal. apply sort_perm. apply ventries_perm.
 Qed.
 
